@@ -19,7 +19,7 @@ import numpy as np
 import sympy
 
 from ..simkit import gen
-from ..simkit.core import SimCrash, call, canon, judge
+from ..simkit.core import SimCrash, WallLimit, call, canon, judge, time_limit
 from ..simkit.simfs import Seams, SimFS, SimPath
 from ..simkit.simrng import POLICIES, SimRNG
 
@@ -162,7 +162,7 @@ def _ops():
     op("g_controlled", "G")(lambda L, a, k, e: a[0].controlled(1 + k[0] % 2))
     op("g_dagger", "G")(lambda L, a, k, e: a[0].dagger)
     op("g_power", "G")(lambda L, a, k, e: a[0].power([2, -1, 3, 0][k[0] % 4]))
-    op("g_exp", "G")(lambda L, a, k, e: a[0].exp)
+    op("g_exp", "G")(lambda L, a, k, e: _cheap_exp(a[0]))
     op("g_bind", "G", "SM")(lambda L, a, k, e: a[0].bind(a[1]))
     op("g_matrix", "G")(lambda L, a, k, e: a[0].matrix)
     op("g_call", "G")(lambda L, a, k, e: a[0](*range(k[0] % 2, k[0] % 2 + a[0].num_qubits)))
@@ -240,6 +240,14 @@ def _ops():
     return O
 
 
+def _cheap_exp(g):
+    """sympy's Matrix.exp() takes minutes on anything with irrational or float entries (T, RX(0.3), exp(exp(X)) ...);
+    such gates would later stall g_matrix / to_unitary / the simulator, so the harness only exponentiates these."""
+    if type(g).__name__ != "MatrixFactoryGate" or g.name not in ("X", "Y", "Z", "I", "H"):
+        raise ValueError("harness: exponential of this gate is too slow to evaluate in sympy")
+    return g.exp
+
+
 NUMS = [2, 0.5, -1.5, 0, 1j, (1 + 2j), 1]
 OPS = _ops()
 
@@ -301,7 +309,7 @@ class World:
         if t in ("D", "CD2"):
             keys = sorted({tuple(r.randint(0, 1) for _ in range(n)) for _ in range(r.randint(1, 5))})
             ws = [r.choice([1, 2, 0.5, r.random()]) for _ in keys]
-            tot = sum(ws)
+            tot = sum(ws) if r.random() < 0.6 else 1.0   # sometimes unnormalised: the constructor then rescales
             return {"t": t, "spec": [[list(k), w / tot] for k, w in zip(keys, ws)], "style": r.choice(["tuple", "bits"])}
         if t == "W":
             kind = r.choice(["num", "num", "basis", "sym"])
@@ -536,7 +544,11 @@ class World:
             st["sim_obj"] = st["Sim"](seed=st["sim_seed"])
             st["fs"].begin_call(step.get("fault"))
             try:
-                ok, res = call(fn, L, args, a["k"], env)
+                try:
+                    with time_limit(45):
+                        ok, res = call(fn, L, args, a["k"], env)
+                except WallLimit:
+                    ok, res = False, WallLimit("library call exceeded the 45 s safety net")
             finally:
                 fired = st["fs"].end_call()
             fired_total += fired
